@@ -8,6 +8,7 @@ package main
 // unchanged apart from the documented additions.
 
 import (
+	"bytes"
 	"bufio"
 	"crypto/sha256"
 	"fmt"
@@ -83,6 +84,25 @@ func (b *rawBackend) serve(c net.Conn) {
 	b.mu.Lock()
 	interim, status, body, rh := b.interim, b.status, b.body, b.hdrs
 	b.mu.Unlock()
+	if f := strings.Fields(line); len(f) >= 2 && strings.HasPrefix(f[1], "/big/") {
+		// a large body derived from the request path, written in many small chunks (concurrent relays overlap)
+		big := relayBigBody(f[1])
+		if clen > 0 {
+			io.CopyN(io.Discard, br, int64(clen))
+		}
+		c.Write([]byte(fmt.Sprintf("HTTP/1.1 200 OK\r\nContent-Type: application/octet-stream\r\nContent-Length: %d\r\nConnection: close\r\n\r\n", len(big))))
+		for off := 0; off < len(big); off += 4096 {
+			end := off + 4096
+			if end > len(big) {
+				end = len(big)
+			}
+			c.Write(big[off:end])
+			if off%(64*1024) == 0 {
+				time.Sleep(time.Millisecond)
+			}
+		}
+		return
+	}
 	if expect {
 		c.Write([]byte("HTTP/1.1 100 Continue\r\n\r\n"))
 	}
@@ -102,6 +122,17 @@ func (b *rawBackend) serve(c net.Conn) {
 	}
 	resp += fmt.Sprintf("Content-Length: %d\r\nConnection: close\r\n\r\n%s", len(body), body)
 	c.Write([]byte(resp))
+}
+
+// relayBigBody: 384 KiB determined by the path (every 16-byte block carries the path's hash and the block number)
+func relayBigBody(path string) []byte {
+	h := sha256.Sum256([]byte(path))
+	out := make([]byte, 0, 384*1024)
+	for i := 0; len(out) < 384*1024; i++ {
+		out = append(out, h[:12]...)
+		out = append(out, byte(i>>24), byte(i>>16), byte(i>>8), byte(i))
+	}
+	return out
 }
 
 func init() {
@@ -197,7 +228,116 @@ func init() {
 				}
 			}
 		}
+		// application paths that merely LOOK like the proxy's own prefix, and unknown paths below it, belong to the "/" upstream
+		be.mu.Lock()
+		be.interim, be.status, be.body, be.hdrs = nil, "200 OK", "app", []string{"X-Backend: raw"}
+		be.mu.Unlock()
+		for _, target := range []string{"/oauth2-docs/guide?page=2", "/oauth2callback", "/oauth2.0/token-info", "/oauth2_clients/42", "/oauth2/unknown-endpoint", "/oauth2/static-not/x", "/oauth", "/oauth2x"} {
+			req, _ := http.NewRequest("GET", front.URL+target, nil)
+			req.Header.Set("Cookie", ck)
+			cl := &http.Client{Transport: &http.Transport{DisableKeepAlives: true}, CheckRedirect: func(*http.Request, []*http.Request) error { return http.ErrUseLastResponse }, Timeout: 10 * time.Second}
+			resp, err := cl.Do(req)
+			if err != nil {
+				c.violation("C17", "authenticated request through the proxy failed", map[string]interface{}{"error": err.Error(), "target": target})
+				continue
+			}
+			rb, _ := io.ReadAll(resp.Body)
+			resp.Body.Close()
+			be.mu.Lock()
+			gotLine := be.last.line
+			be.mu.Unlock()
+			c.casen("relay|lookalike|"+target, fmt.Sprint(resp.StatusCode))
+			c.count("relay:prefix-lookalike")
+			if resp.StatusCode != 200 || string(rb) != "app" || gotLine != "GET "+target+" HTTP/1.1" {
+				c.violation("C17", "an authenticated request for an application path that only resembles the proxy prefix did not reach the \"/\" upstream unchanged",
+					map[string]interface{}{"target": target, "status": resp.StatusCode, "body": truncate(string(rb), 80), "upstream_saw": gotLine})
+			}
+		}
+		// repeated end-to-end request headers: every line's value reaches the upstream, duplicates included, in order
+		{
+			req, _ := http.NewRequest("GET", front.URL+"/hdr/repeat", nil)
+			req.Header.Set("Cookie", ck)
+			for _, v := range []string{"7", "9", "7"} {
+				req.Header.Add("X-Item-Id", v)
+			}
+			req.Header.Add("Via", "1.1 edge")
+			req.Header.Add("Via", "1.1 edge")
+			req.Header.Add("X-Same", "a")
+			req.Header.Add("X-Same", "a")
+			cl := &http.Client{Transport: &http.Transport{DisableKeepAlives: true}, Timeout: 10 * time.Second}
+			if resp, err := cl.Do(req); err == nil {
+				io.Copy(io.Discard, resp.Body)
+				resp.Body.Close()
+				be.mu.Lock()
+				gotHdrs := be.last.headers
+				be.mu.Unlock()
+				vals := func(name string) string {
+					var out []string
+					for _, h := range gotHdrs {
+						if i := strings.Index(h, ":"); i > 0 && strings.EqualFold(h[:i], name) {
+							for _, p := range strings.Split(h[i+1:], ",") {
+								out = append(out, strings.TrimSpace(p))
+							}
+						}
+					}
+					return strings.Join(out, "|")
+				}
+				c.count("relay:repeated-headers")
+				c.casen("relay|repeated-headers", vals("X-Item-Id"))
+				if vals("X-Item-Id") != "7|9|7" || vals("X-Same") != "a|a" || !strings.HasPrefix(vals("Via"), "1.1 edge|1.1 edge") {
+					c.violation("C17", "values of a repeated end-to-end request header were dropped or reordered on the way to the upstream",
+						map[string]interface{}{"sent": map[string][]string{"X-Item-Id": {"7", "9", "7"}, "Via": {"1.1 edge", "1.1 edge"}, "X-Same": {"a", "a"}}, "upstream_saw": gotHdrs})
+				}
+			}
+		}
+		// concurrent relays of large bodies from the same upstream: every client gets exactly its own body
+		{
+			workers, rounds := 8, 3*c.scale
+			var wg sync.WaitGroup
+			var mu sync.Mutex
+			bad := 0
+			for w := 0; w < workers; w++ {
+				wg.Add(1)
+				go func(w int) {
+					defer wg.Done()
+					cl := &http.Client{Transport: &http.Transport{DisableKeepAlives: true}, Timeout: 30 * time.Second}
+					for k := 0; k < rounds; k++ {
+						path := fmt.Sprintf("/big/%d/%d", w, k)
+						req, _ := http.NewRequest("GET", front.URL+path, nil)
+						req.Header.Set("Cookie", ck)
+						resp, err := cl.Do(req)
+						if err != nil {
+							continue
+						}
+						rb, _ := io.ReadAll(resp.Body)
+						resp.Body.Close()
+						want := relayBigBody(path)
+						if resp.StatusCode != 200 || !bytes.Equal(rb, want) {
+							first := -1
+							for i := 0; i < len(rb) && i < len(want); i++ {
+								if rb[i] != want[i] {
+									first = i
+									break
+								}
+							}
+							mu.Lock()
+							bad++
+							if bad <= 2 {
+								c.violation("C17", "a response body relayed concurrently with others did not arrive unchanged", map[string]interface{}{
+									"path": path, "status": resp.StatusCode, "got_len": len(rb), "want_len": len(want), "first_differing_byte": first, "concurrent_requests": workers})
+							}
+							mu.Unlock()
+						}
+					}
+				}(w)
+			}
+			wg.Wait()
+			c.casen("relay|concurrent-bodies", fmt.Sprintf("%d wrong", bad))
+			for i := 0; i < workers*rounds; i++ {
+				c.count("relay:concurrent-body")
+			}
+		}
 		e.close()
-		c.close([]string{"relay:case", "relay:with-interim"})
+		c.close([]string{"relay:case", "relay:with-interim", "relay:prefix-lookalike", "relay:repeated-headers", "relay:concurrent-body"})
 	})
 }
